@@ -689,3 +689,49 @@ prop("C08",
      unverified_surroundings=["mpi4py", "pyopencl",
                               "generate_code_for_partition / loopy execution "
                               "of the parts"])
+
+
+def _lean_composition_lemmas(tier, seed):
+    """Appendix A.1/A.5 (whole-graph statements from the per-node contracts),
+    machine-checked: lemmas/Memo.lean is compiled by Lean 4 (+Mathlib) in the
+    thorough tier.  A failure here is a fault of the argument, not a property
+    violation."""
+    import os
+    import re
+    import subprocess
+    import time
+    name = "lean-composition-lemmas-A1-A5"
+    src = os.path.join(os.path.dirname(os.path.dirname(
+        os.path.abspath(__file__))), "lemmas", "Memo.lean")
+    theorems = re.findall(r"^theorem (\S+)", open(src).read(), re.M)
+    if tier != "thorough":
+        return dict(name=name, kind="lemma", evaluations=0, failures=[],
+                    note="compiled in the thorough tier only "
+                         "(./check C13 --tier thorough); " +
+                         f"{len(theorems)} theorems in lemmas/Memo.lean")
+    t0 = time.time()
+    try:
+        p = subprocess.run(["lean", src], capture_output=True, text=True,
+                           timeout=1500, check=False)
+    except (OSError, subprocess.TimeoutExpired) as e:
+        return dict(name=name, kind="fault", fault=f"lean: {e}", failures=[],
+                    evaluations=0)
+    out = p.stdout + p.stderr
+    bad = p.returncode != 0 or "error" in out or "sorry" in out
+    axioms = re.findall(r"depends on axioms: \[(.*?)\]", out)
+    extra_axioms = [a for a in axioms
+                    if set(x.strip() for x in a.split(",")) -
+                    {"propext", "Quot.sound", "Classical.choice"}]
+    if bad or extra_axioms or not axioms:
+        return dict(name=name, kind="fault",
+                    fault="lean did not accept lemmas/Memo.lean:\n" +
+                          out[-1500:], failures=[], evaluations=0)
+    return dict(name=name, kind="lemma", evaluations=len(theorems),
+                obligations=len(theorems), discharged=len(theorems),
+                failures=[], backend="Lean 4 kernel (lean + Mathlib)",
+                seconds=round(time.time() - t0, 1), theorems=theorems,
+                axioms=sorted(set(axioms)))
+
+
+for _p in ("C13", "C20"):
+    EXTRAS.setdefault(_p, []).append(_lean_composition_lemmas)
